@@ -118,6 +118,7 @@ structure Inv (n : Node) : Prop where
   handed_le_commit : n.handed ≤ n.commit
   commit_le_len : n.commit ≤ n.log.length
   fsm_le_handed : n.fsmIdx ≤ n.handed
+  tgt_le_fsm : n.tgt ≤ n.fsmIdx
   compacted_handed : ∀ j, typeAtL n.log j = some none → j ≤ n.handed
   cmd_reached : ∀ j, j ≤ n.handed → typeAtL n.log j = some (some .command) → j ≤ n.fsmIdx
 
@@ -126,7 +127,7 @@ theorem inv_init : Inv {} := by
 
 theorem applyFsm_cases (n : Node) :
     (n.typeAt (n.handed + 1) = some (some .command) ∧
-      applyFsm n = { n with handed := n.handed + 1, fsmIdx := max n.fsmIdx (n.handed + 1) }) ∨
+      applyFsm n = { n with handed := n.handed + 1, fsmIdx := n.handed + 1, tgt := max n.tgt (n.handed + 1) }) ∨
     (n.typeAt (n.handed + 1) ≠ some (some .command) ∧
       applyFsm n = { n with handed := n.handed + 1 }) := by
   unfold applyFsm
@@ -134,12 +135,27 @@ theorem applyFsm_cases (n : Node) :
   · left; rename_i h; exact ⟨h, rfl⟩
   · right; rename_i h; exact ⟨h, rfl⟩
 
+theorem typeAtL_some_none_of_drop (l : List (Option EType)) (li j : Nat)
+    (hall : (l.drop li).all (fun x => x.isSome) = true) (h : typeAtL l j = some none) : j ≤ li := by
+  apply Nat.le_of_not_lt
+  intro hlt
+  have hb := typeAtL_some_pos _ _ _ h
+  rw [typeAtL_pos l j hb.1] at h
+  have hm : (none : Option EType) ∈ l.drop li := by
+    rw [List.mem_iff_getElem?]
+    refine ⟨j - 1 - li, ?_⟩
+    rw [List.getElem?_drop]
+    have : li + (j - 1 - li) = j - 1 := by omega
+    rw [this]; exact h
+  have := (List.all_eq_true.1 hall) none hm
+  simp at this
+
 theorem inv_raw (n : Node) (e : Ev) (hen : e.enabled n = true) (h : Inv n) : Inv (applyRaw n e) := by
-  obtain ⟨h1, h2, h3, h4, h5⟩ := h
+  obtain ⟨h1, h2, h3, h6, h4, h5⟩ := h
   cases e with
   | append t =>
     simp only [applyRaw]
-    refine ⟨h1, ?_, h3, ?_, ?_⟩
+    refine ⟨h1, ?_, h3, h6, ?_, ?_⟩
     · simp only [List.length_append, List.length_singleton]; omega
     · intro j hj
       simp only at hj ⊢
@@ -157,7 +173,7 @@ theorem inv_raw (n : Node) (e : Ev) (hen : e.enabled n = true) (h : Inv n) : Inv
   | trunc k =>
     simp only [Ev.enabled, decide_eq_true_eq] at hen
     simp only [applyRaw]
-    refine ⟨h1, ?_, h3, ?_, ?_⟩
+    refine ⟨h1, ?_, h3, h6, ?_, ?_⟩
     · simp only [List.length_take]; omega
     · intro j hj
       simp only at hj ⊢
@@ -171,24 +187,21 @@ theorem inv_raw (n : Node) (e : Ev) (hen : e.enabled n = true) (h : Inv n) : Inv
   | commit c =>
     simp only [Ev.enabled, decide_eq_true_eq] at hen
     simp only [applyRaw]
-    exact ⟨by simp only; omega, by simp only; omega, h3, h4, h5⟩
+    exact ⟨by simp only; omega, by simp only; omega, h3, h6, h4, h5⟩
   | fsm =>
     simp only [Ev.enabled, decide_eq_true_eq] at hen
     simp only [applyRaw]
     rcases applyFsm_cases n with ⟨hty, heq⟩ | ⟨hty, heq⟩
     · rw [heq]
-      refine ⟨by simp only; omega, h2, by simp only; omega, ?_, ?_⟩
+      refine ⟨by simp only; omega, h2, by simp only; omega, by simp only; omega, ?_, ?_⟩
       · intro j hj
         have := h4 j hj
         simp only; omega
       · intro j hj hc
         simp only at hj hc ⊢
-        by_cases hje : j = n.handed + 1
-        · omega
-        · have := h5 j (by omega) hc
-          omega
+        omega
     · rw [heq]
-      refine ⟨by simp only; omega, h2, by simp only; omega, ?_, ?_⟩
+      refine ⟨by simp only; omega, h2, by simp only; omega, h6, ?_, ?_⟩
       · intro j hj
         have := h4 j hj
         simp only; omega
@@ -200,7 +213,7 @@ theorem inv_raw (n : Node) (e : Ev) (hen : e.enabled n = true) (h : Inv n) : Inv
   | restore i =>
     simp only [Ev.enabled, decide_eq_true_eq] at hen
     simp only [applyRaw]
-    refine ⟨by simp only; omega, ?_, by simp only; omega, ?_, ?_⟩
+    refine ⟨by simp only; omega, ?_, by simp only; omega, by simp only; omega, ?_, ?_⟩
     · simp only [padTo_length]; omega
     · intro j hj
       simp only at hj ⊢
@@ -218,7 +231,7 @@ theorem inv_raw (n : Node) (e : Ev) (hen : e.enabled n = true) (h : Inv n) : Inv
   | compact k =>
     simp only [Ev.enabled, decide_eq_true_eq] at hen
     simp only [applyRaw]
-    refine ⟨h1, ?_, h3, ?_, ?_⟩
+    refine ⟨h1, ?_, h3, h6, ?_, ?_⟩
     · simp only [compactLog_length]; exact h2
     · intro j hj
       simp only at hj ⊢
@@ -235,6 +248,17 @@ theorem inv_raw (n : Node) (e : Ev) (hen : e.enabled n = true) (h : Inv n) : Inv
         cases hc
       · rw [typeAtL_compact_gt _ _ _ (by omega)] at hc
         exact h5 j hj hc
+  | reopen li =>
+    simp only [Ev.enabled, Bool.and_eq_true, decide_eq_true_eq] at hen
+    obtain ⟨hli, hall⟩ := hen
+    simp only [applyRaw]
+    refine ⟨by simp only; omega, by simp only; omega, by simp only; omega, by simp only; omega, ?_, ?_⟩
+    · intro j hj
+      simp only at hj ⊢
+      exact typeAtL_some_none_of_drop _ _ _ hall hj
+    · intro j hj _
+      simp only at hj ⊢
+      exact hj
 
 theorem inv_step (n : Node) (e : Ev) (h : Inv n) : Inv (applyEv n e) := by
   unfold applyEv
@@ -323,11 +347,15 @@ theorem scan_spec_B (n : Node) (hinv : Inv n) (i : Nat) (hi : i ≤ n.log.length
 /-! ### progress: an index is reached, or is a committed command the FSM has not got to yet -/
 
 def Pending (n : Node) (r : Nat) : Prop :=
-  r ≤ n.fsmIdx ∨ (n.handed < r ∧ r ≤ n.commit ∧ n.typeAt r = some (some .command))
+  r ≤ n.tgt ∨ (n.handed < r ∧ r ≤ n.commit ∧ n.typeAt r = some (some .command))
 
-/-- the counters never decrease -/
-theorem mono_step (n : Node) (e : Ev) :
-    n.handed ≤ (applyEv n e).handed ∧ n.commit ≤ (applyEv n e).commit ∧ n.fsmIdx ≤ (applyEv n e).fsmIdx := by
+def NotReopen (e : Ev) : Prop := ∀ li, e ≠ .reopen li
+
+/-- without a process restart the counters never decrease -/
+theorem mono_step (n : Node) (hinv : Inv n) (e : Ev) (hne : NotReopen e) :
+    n.handed ≤ (applyEv n e).handed ∧ n.commit ≤ (applyEv n e).commit ∧
+    n.fsmIdx ≤ (applyEv n e).fsmIdx ∧ n.tgt ≤ (applyEv n e).tgt := by
+  have h3 := hinv.fsm_le_handed
   unfold applyEv
   by_cases hen : e.enabled n = true
   · rw [if_pos hen]
@@ -340,22 +368,28 @@ theorem mono_step (n : Node) (e : Ev) :
       rcases applyFsm_cases n with ⟨_, heq⟩ | ⟨_, heq⟩ <;> rw [heq] <;> simp only <;> omega
     | restore i => simp only [Ev.enabled, decide_eq_true_eq] at hen; simp only [applyRaw]; omega
     | compact k => simp [applyRaw]
+    | reopen li => exact absurd rfl (hne li)
   · rw [if_neg hen]; omega
 
-theorem mono_run (n : Node) (es : List Ev) :
-    n.handed ≤ (run n es).handed ∧ n.commit ≤ (run n es).commit ∧ n.fsmIdx ≤ (run n es).fsmIdx := by
+theorem noReopen_cons {e : Ev} {es : List Ev} (h : NoReopen (e :: es)) : NotReopen e ∧ NoReopen es :=
+  ⟨fun li => h e (by simp) li, fun e' he' => h e' (by simp [he'])⟩
+
+theorem mono_run (n : Node) (hinv : Inv n) (es : List Ev) (hno : NoReopen es) :
+    n.handed ≤ (run n es).handed ∧ n.commit ≤ (run n es).commit ∧
+    n.fsmIdx ≤ (run n es).fsmIdx ∧ n.tgt ≤ (run n es).tgt := by
   induction es generalizing n with
   | nil => simp [run]
   | cons e es ih =>
-    have a := mono_step n e
-    have b := ih (applyEv n e)
+    obtain ⟨h1, h2⟩ := noReopen_cons hno
+    have a := mono_step n hinv e h1
+    have b := ih (applyEv n e) (inv_step n e hinv) h2
     simp only [run, List.foldl_cons] at b ⊢
     omega
 
-theorem pending_step (n : Node) (e : Ev) (hinv : Inv n) (r : Nat) (h : Pending n r) :
+theorem pending_step (n : Node) (e : Ev) (hinv : Inv n) (hne : NotReopen e) (r : Nat) (h : Pending n r) :
     Pending (applyEv n e) r := by
   rcases h with h | ⟨ha, hb, hc⟩
-  · left; have := (mono_step n e).2.2; omega
+  · left; have := (mono_step n hinv e hne).2.2.2; omega
   unfold applyEv
   by_cases hen' : e.enabled n = false
   · rw [if_neg (by simp [hen'])]; exact Or.inr ⟨ha, hb, hc⟩
@@ -402,12 +436,85 @@ theorem pending_step (n : Node) (e : Ev) (hinv : Inv n) (r : Nat) (h : Pending n
     right
     simp only [applyRaw, Node.typeAt]
     exact ⟨ha, hb, by rw [typeAtL_compact_gt _ _ _ (by omega)]; exact hc⟩
+  | reopen li => exact absurd rfl (hne li)
 
-theorem pending_run (n : Node) (es : List Ev) (hinv : Inv n) (r : Nat) (h : Pending n r) :
+theorem pending_run (n : Node) (es : List Ev) (hinv : Inv n) (hno : NoReopen es) (r : Nat) (h : Pending n r) :
     Pending (run n es) r := by
   induction es generalizing n with
   | nil => exact h
-  | cons e es ih => exact ih _ (inv_step n e hinv) (pending_step n e hinv r h)
+  | cons e es ih =>
+    obtain ⟨h1, h2⟩ := noReopen_cons hno
+    exact ih _ (inv_step n e hinv) h2 (pending_step n e hinv h1 r h)
+
+/-! ### the ReadyTarget agrees with the FSM index once something was applied in this process -/
+
+theorem synced_step (n : Node) (hinv : Inv n) (e : Ev) (hne : NotReopen e) (hs : Synced n) :
+    Synced (applyEv n e) := by
+  have h3 := hinv.fsm_le_handed
+  unfold Synced at *
+  unfold applyEv
+  by_cases hen : e.enabled n = true
+  · rw [if_pos hen]
+    cases e with
+    | append t => simpa [applyRaw] using hs
+    | trunc k => simpa [applyRaw] using hs
+    | commit c => simpa [applyRaw] using hs
+    | fsm =>
+      simp only [applyRaw]
+      rcases applyFsm_cases n with ⟨_, heq⟩ | ⟨_, heq⟩ <;> rw [heq] <;> simp only <;> omega
+    | restore i => simp only [Ev.enabled, decide_eq_true_eq] at hen; simp only [applyRaw]; omega
+    | compact k => simpa [applyRaw] using hs
+    | reopen li => exact absurd rfl (hne li)
+  · rw [if_neg hen]; exact hs
+
+theorem synced_run (n : Node) (hinv : Inv n) (es : List Ev) (hno : NoReopen es) (hs : Synced n) :
+    Synced (run n es) := by
+  induction es generalizing n with
+  | nil => exact hs
+  | cons e es ih =>
+    obtain ⟨h1, h2⟩ := noReopen_cons hno
+    exact ih _ (inv_step n e hinv) h2 (synced_step n hinv e h1 hs)
+
+/-- applying a command entry (what a strong read is) or installing a snapshot synchronises them,
+whatever happened before — in particular after a restart -/
+theorem synced_after_command (n : Node) (hinv : Inv n) (hen : Ev.fsm.enabled n = true)
+    (hc : n.typeAt (n.handed + 1) = some (some .command)) : Synced (applyEv n .fsm) := by
+  have h3 := hinv.fsm_le_handed
+  have h6 := hinv.tgt_le_fsm
+  unfold Synced applyEv
+  rw [if_pos hen]
+  simp only [applyRaw]
+  rcases applyFsm_cases n with ⟨_, heq⟩ | ⟨hty, _⟩
+  · rw [heq]; simp only; omega
+  · exact absurd hc hty
+
+theorem synced_after_restore (n : Node) (hinv : Inv n) (i : Nat) (hen : (Ev.restore i).enabled n = true) :
+    Synced (applyEv n (.restore i)) := by
+  have h3 := hinv.fsm_le_handed
+  have h6 := hinv.tgt_le_fsm
+  simp only [Ev.enabled, decide_eq_true_eq] at hen
+  unfold Synced applyEv
+  simp only [Ev.enabled, hen, decide_true, if_true, applyRaw]
+  omega
+
+/-- **Safety of the wait.** If the subscription has fired, every command entry at or below the
+read index (as seen by the scan) has been processed by the FSM goroutine. -/
+theorem wait_ok_applied (n : Node) (hinv : Inv n) (es1 es2 : List Ev)
+    (hno1 : NoReopen es1) (hno2 : NoReopen es2)
+    (hr : reached (run (run n es1) es2) (targetAt (run n es1) n.commit) = true) :
+    ∀ j, j ≤ n.commit → (run n es1).typeAt j = some (some .command) → j ≤ (run (run n es1) es2).handed := by
+  intro j hj hc
+  have hinv1 : Inv (run n es1) := inv_run _ es1 hinv
+  have hinv2 : Inv (run (run n es1) es2) := inv_run _ es2 hinv1
+  have hm1 := mono_run n hinv es1 hno1
+  have hm2 := mono_run _ hinv1 es2 hno2
+  have hlen := hinv1.commit_le_len
+  have ht : targetAt (run n es1) n.commit ≤ (run (run n es1) es2).tgt := by simpa [reached] using hr
+  have h3 := hinv2.fsm_le_handed
+  have h6 := hinv2.tgt_le_fsm
+  rcases scan_spec_B (run n es1) hinv1 n.commit (by omega) j hj hc with hb | hb
+  · unfold targetAt at ht; omega
+  · omega
 
 /-- draining hands every committed entry to the FSM -/
 theorem run_fsm_replicate (n : Node) (k : Nat) (h : n.handed + k ≤ n.commit) :
@@ -427,5 +534,10 @@ theorem run_fsm_replicate (n : Node) (k : Nat) (h : n.handed + k ≤ n.commit) :
 theorem drain_handed (n : Node) (h : n.handed ≤ n.commit) : (drain n).handed = n.commit := by
   have := (run_fsm_replicate n (n.commit - n.handed) (by omega)).1
   unfold drain; omega
+
+theorem noReopen_replicate_fsm (k : Nat) : NoReopen (List.replicate k Ev.fsm) := by
+  intro e he li
+  rw [List.mem_replicate] at he
+  rw [he.2]; exact fun h => by cases h
 
 end RqModel.LinRead
